@@ -3,6 +3,7 @@ import SlicecVerif.Drv.C11
 import SlicecVerif.Drv.C12
 import SlicecVerif.Drv.C02
 import SlicecVerif.Drv.C02lex
+import SlicecVerif.Drv.C06c
 import SlicecVerif.Drv.C02parse
 import SlicecVerif.Drv.C09lex
 import SlicecVerif.Drv.C17
@@ -38,6 +39,7 @@ def main (args : List String) : IO UInt32 := do
     | "C02" => genC02 t s o
     | "C09" => genC09 t s o
     | "C02lex" => genC02lex t s o
+    | "C06c" => genC06c t s o
     | "C02parse" => genC02parse t s o
     | "C09lex" => genC09lex t s o
     | "C17" => genC17 t s o
